@@ -202,6 +202,8 @@ def solve_lp(
         objective_value = float(result.fun)
         if lp_data.sense == "max":
             objective_value = -objective_value
+        # linprog only sees the cost vector: add the objective's constant term
+        objective_value += lp_data.c0
 
     # Build informative message for unbounded/infeasible cases
     message = result.message if hasattr(result, "message") else ""
